@@ -210,3 +210,125 @@ example : attrsOf "data".toList ["t".toList] "/data/b".toList false [("relevant"
 end Examples
 
 end Pyxv.C05
+
+/-! ## the executable spec (`Spec.expectedG`, what the oracle evaluates) is the lookup form of `bind_of_row(_refs)` -/
+
+namespace Pyxv.C05
+open Pyxv Pyxv.Binds
+
+theorem mem_dedup (k : Str) : ∀ l : List Str, k ∈ Spec.dedup l ↔ k ∈ l
+  | [] => by simp [Spec.dedup]
+  | a :: l => by
+    have ih := mem_dedup k l
+    by_cases h : k = a
+    · subst h; simp [Spec.dedup]
+    · simp [Spec.dedup, List.mem_filter, ih, h]
+
+/-- the fold of `expectedG` over any key list, read by lookup -/
+theorem expectedG_fold_lookup (val : Str → BVal → Option Str) (tt : List (Str × Str)) (logic : BindDict) (trig : Bool) :
+    ∀ (keys : List Str) (l : List (Str × Str)),
+      keys.foldr (fun k acc =>
+        match acc with
+        | none => none
+        | some l =>
+          match Spec.source tt logic trig k with
+          | none => some l
+          | some v =>
+            match val k v with
+            | none => none
+            | some s => some ((k, s) :: l)) (some []) = some l →
+      ∀ k, lookup k l = if k ∈ keys then (Spec.source tt logic trig k).bind (val k) else none := by
+  intro keys
+  induction keys with
+  | nil => intro l h k; simp only [List.foldr_nil, Option.some.injEq] at h; subst h; simp [lookup]
+  | cons k0 ks ih =>
+    intro l h k
+    simp only [List.foldr_cons] at h
+    split at h
+    · cases h
+    · next l' hl' =>
+      have ih' := ih l' hl' k
+      split at h
+      · next hs =>
+        simp only [Option.some.injEq] at h
+        subst h
+        rw [ih']
+        by_cases hk : k = k0
+        · subst hk
+          simp [hs]
+        · simp [hk]
+      · next v hs =>
+        split at h
+        · cases h
+        · next s hv =>
+          simp only [Option.some.injEq] at h
+          subst h
+          simp only [lookup]
+          by_cases hk : k = k0
+          · subst hk
+            simp [hs, hv]
+          · rw [if_neg hk, ih']
+            simp [hk]
+
+/-- **expectedG_lookup.**  The attribute map the oracle computes (`Spec.expected` / `Spec.expectedR` are instances of
+`Spec.expectedG`) is, read by lookup, the right-hand side of `bind_of_row` / `bind_of_row_refs`, for every key. -/
+theorem expectedG_lookup (val : Str → BVal → Option Str) (tt : List (Str × Str)) (logic : BindDict) (trig : Bool)
+    (l : List (Str × Str)) (h : Spec.expectedG val tt logic trig = some l) (k : Str) :
+    lookup k l = (Spec.source tt logic trig k).bind (val k) := by
+  unfold Spec.expectedG at h
+  rw [expectedG_fold_lookup val tt logic trig _ l h k]
+  split
+  · rfl
+  · next hk =>
+    rw [mem_dedup, List.mem_append, not_or] at hk
+    have h1 : lookup k tt = none := lookup_eq_none k tt hk.1
+    have h2 : lookup k logic = none := lookup_eq_none k logic hk.2
+    unfold Spec.source
+    split
+    · rfl
+    · rw [h2, h1]; rfl
+
+/-- `Spec.expected` (the oracle of the first model) is the instance of `expectedG` at `Spec.value` -/
+theorem expected_eq_expectedG (root : Str) (tops : List Str) (path : Str) (tt : List (Str × Str)) (logic : BindDict)
+    (trig : Bool) : Spec.expected root tops path tt logic trig = Spec.expectedG (fun k => Spec.value root tops path k) tt logic trig := rfl
+
+/-- **oracle_is_bind_refs.**  Whenever the composed model emits a bind and the oracle's `Spec.expectedR` answers for the
+same node, the two are the same finite map: what the oracle demands of the implementation's output is exactly what the
+model's bind carries, key by key. -/
+theorem oracle_is_bind_refs (els : List Refs.Chain) (c : Refs.Chain) (trig : Bool)
+    (tt : List (Str × Str)) (logic : BindDict) (attrs l : List (Str × Str))
+    (hl : (logic.map (·.1)).Nodup)
+    (h : attrsOfR els c trig (dictUpdate (tt.map fun (k, v) => (k, BVal.s v)) logic) = some attrs)
+    (he : Spec.expectedR els c tt logic trig = some l) (k : Str) :
+    lookup k attrs = lookup k l := by
+  rw [bind_of_row_refs els c trig tt logic attrs hl h k]
+  exact (expectedG_lookup (Spec.valueR els c) tt logic trig l he k).symm
+
+/-- the same for the first model: `Spec.expected` against `attrsOf` -/
+theorem oracle_is_bind (root : Str) (tops : List Str) (path : Str) (trig : Bool)
+    (tt : List (Str × Str)) (logic : BindDict) (attrs l : List (Str × Str))
+    (hl : (logic.map (·.1)).Nodup)
+    (h : attrsOf root tops path trig (dictUpdate (tt.map fun (k, v) => (k, BVal.s v)) logic) = some attrs)
+    (he : Spec.expected root tops path tt logic trig = some l) (k : Str) :
+    lookup k attrs = lookup k l := by
+  rw [bind_of_row root tops path trig tt logic attrs hl h k]
+  rw [expected_eq_expectedG] at he
+  exact (expectedG_lookup _ tt logic trig l he k).symm
+
+-- non-vacuity: both hypotheses of `oracle_is_bind_refs` hold for a row with a relative reference
+example : ∃ els c attrs l, attrsOfR els c false (dictUpdate ([("type".toList, "int".toList)].map fun (k, v) => (k, BVal.s v))
+      [("relevant".toList, .s "${a} > 1".toList)]) = some attrs ∧
+    Spec.expectedR els c [("type".toList, "int".toList)] [("relevant".toList, .s "${a} > 1".toList)] false = some l ∧
+    lookup "relevant".toList l = some " ../a  > 1".toList :=
+  ⟨[[("data".toList, .group)], [("data".toList, .group), ("r".toList, .rep)],
+    [("data".toList, .group), ("r".toList, .rep), ("a".toList, .q)],
+    [("data".toList, .group), ("r".toList, .rep), ("b".toList, .q)]],
+   [("data".toList, .group), ("r".toList, .rep), ("b".toList, .q)],
+   [("type".toList, "int".toList), ("relevant".toList, " ../a  > 1".toList)],
+   [("type".toList, "int".toList), ("relevant".toList, " ../a  > 1".toList)], by decide +kernel, by decide +kernel, by decide +kernel⟩
+
+example : Spec.expected "data".toList ["t".toList] "/data/b".toList [("type".toList, "int".toList)]
+    [("relevant".toList, .s "${t} > 1".toList)] false
+    = some [("type".toList, "int".toList), ("relevant".toList, " /data/t  > 1".toList)] := by decide +kernel
+
+end Pyxv.C05
